@@ -284,6 +284,7 @@ class AsyncRunnerTemplate(BaseRunner, ABC):
         _validate_error_handling(error_handling)
         _validate_max_concurrency(max_concurrency)
         _validate_on_internal_override(on_internal_override)
+        _validate_on_missing(on_missing)
         select = _materialize_select(select)
 
         map_over_list = [map_over] if isinstance(map_over, str) else list(map_over)
@@ -295,7 +296,6 @@ class AsyncRunnerTemplate(BaseRunner, ABC):
             # reject for the first item is rejected here, before anything is
             # emitted. (In continue mode such an item is a FAILED result; the
             # override policy itself is applied by each item's run.)
-            _validate_on_missing(on_missing)
             validate_inputs(
                 graph,
                 input_variations[0],
